@@ -51,6 +51,9 @@ let replay_pl id line =
   let c = ref (g_init, l_init roles) in
   let do_step t o = c := step (pl_tstep cfg) !c (nat_of_int t, o) in
   let local t = (snd !c) (nat_of_int t) in
+  (* finish the multi-step operation thread t is in: select_active_pu walk, Start (the scheduling loop stores
+     the last worker after pending->active), Leave (do_yield stored the last worker, now switches out), Res
+     (last worker of the target read, now set_thread_state) *)
   let flush t = let n = ref 0 in while (local t).pc <> Idle && !n < 10000 do do_step t (OAct AEnd); incr n done in
   let mid = Hashtbl.create 64 in            (* uid -> model task id *)
   let rejected = Hashtbl.create 8 in
@@ -161,7 +164,7 @@ let replay_pl id line =
            | _ when not ok -> ()
            | 'Y' -> do_step (thr p w) (OAct AYield); flush (thr p w)
            | 'B' -> do_step (thr p w) (OAct (ABoost false)); flush (thr p w)
-           | 'U' -> do_step (thr p w) (OAct ASuspend)
+           | 'U' -> do_step (thr p w) (OAct ASuspend); flush (thr p w)
            | 'Z' -> do_step (thr p w) (OAct AEnd)
            | 'K' -> (match Hashtbl.find_opt mid a with
                | Some b -> do_step (thr p w) (OAct (AYieldTo (nat_of_int b))); flush (thr p w)
@@ -196,7 +199,8 @@ let replay_e6 id line =
         (other, OPop (SrcOwnN, O)) ]
     else
       [ (x, sp); (x, OAct AEnd); (x, OAct AEnd); (y, sp); (y, OAct AEnd); (y, OAct AEnd);
-        (hint mod w, OPop (SrcOwnN, O)); (hint mod w, OAct AEnd); (hint mod w, OPop (SrcOwnN, O)); (other, OPop (SrcOwnN, O)) ] in
+        (hint mod w, OPop (SrcOwnN, O)); (hint mod w, OAct AEnd); (hint mod w, OAct AEnd);
+        (hint mod w, OPop (SrcOwnN, O)); (other, OPop (SrcOwnN, O)) ] in
   let c = List.fold_left (fun c (t, o) -> step (pl_tstep cfg) c (nat_of_int t, o)) (g_init, l_init roles) sched in
   let div = List.exists (function
       | EEnter (_, _, _, ww, _) -> int_of_nat ww <> hint mod w
